@@ -265,7 +265,19 @@ func checkC23(c *Ctx, r *Report) {
 		trueEdgeTo := map[*ssa.BasicBlock]string{} // blocks entered on a test's true edge
 		for _, t := range tests {
 			if callee, _ := calleeOf(&t.call.Call); callee != nil {
-				roots = append(roots, callee)
+				// a library scan with a predicate literal: the matcher is the predicate (which may
+				// capture the request's action / resource / name: those are arguments of the decision)
+				if n := calleeName(&t.call.Call); strings.HasPrefix(n, "slices.ContainsFunc") || strings.HasPrefix(n, "slices.IndexFunc") {
+					if mc, ok := t.call.Call.Args[len(t.call.Call.Args)-1].(*ssa.MakeClosure); ok {
+						for _, cc := range callsIn(mc.Fn.(*ssa.Function)) {
+							if g, _ := calleeOf(cc.Common()); g != nil && g.Blocks != nil && m.isLocalPkg(fnPkg(g)) {
+								roots = append(roots, g)
+							}
+						}
+					}
+				} else {
+					roots = append(roots, callee)
+				}
 			}
 			ifs := ifsOn(fn, t.call)
 			switch t.list {
